@@ -82,7 +82,8 @@ impl<'a, P: ?Sized + PathImpl> PathMutImpl<'a, P> {
 		// - `segment` is empty, path is absolute and following an authority.
 		// - `segment` is empty, path is relative.
 		let disambiguate = self.is_empty()
-			&& ((self.start == 0 && segment.looks_like_scheme()) || segment.is_empty());
+			&& ((self.start == 0 && parse::first_segment_has_colon(segment.as_bytes()))
+				|| segment.is_empty());
 
 		if disambiguate {
 			let start = self.first_segment_offset();
